@@ -846,6 +846,23 @@ func c17e(c *Ctx) {
 				c.Bad(key+"/guard", pos, "the separator is not written under 'the counter of emitted outputs is positive'")
 				continue
 			}
+			// ... and under nothing else: what distinguishes the separator's block from the block that
+			// decides it is that one test (a further conjunct about the neighbouring statements
+			// would make the blank lines depend on what is emitted, not on whether something was)
+			if d := b.Idom(); d != nil {
+				base := map[string]bool{}
+				for _, l := range c.mustLits(fn, d) {
+					base[l] = true
+				}
+				var extra []string
+				for _, l := range c.mustLits(fn, b) {
+					if !base[l] {
+						extra = append(extra, l)
+					}
+				}
+				okOnly := len(extra) == 1 && strings.HasPrefix(extra[0], "+(0 < ")
+				c.Check(okOnly, key+"/guard-only", pos, "the separator depends on the counter alone", "the separator is written under "+fmt.Sprint(prettyAll(extra))+" beyond what holds where that is decided: expected just 'something was emitted before'")
+			}
 			// the counter goes up by one exactly on the ways round its loop that wrote an output
 			body := loopBody(used.head)
 			okCount := true
@@ -964,6 +981,27 @@ func c17f(c *Ctx) {
 				}
 			case *ssa.Call:
 				return "the result of " + calleeName(x)
+			case *ssa.Parameter:
+				// handed in: whatever every caller passes
+				idx := -1
+				for i, pp := range f.Params {
+					if pp == x {
+						idx = i
+					}
+				}
+				sites := c.W.callsTo(f)
+				if idx < 0 || len(sites) == 0 {
+					break
+				}
+				for _, site := range sites {
+					if isTestFunc(c.W, site.Parent()) {
+						continue
+					}
+					if w := isRead(site.Parent(), site.Common().Args[idx], depth+1); w != "" {
+						return w
+					}
+				}
+				return ""
 			}
 			return pretty(c.term(f, v))
 		}
